@@ -82,7 +82,7 @@ class Ctx:
             if got < n:
                 self.bad(fam + '/floor', 'FLOOR', 'rule-family', 'decided %d instances, floor is %d' % (got, n))
         known_keys = {k['key']: k for k in known.get('known', []) if k.get('property') == self.prop}
-        outdir = os.path.join(VERIF, 'out', self.prop)
+        outdir = os.path.join(os.environ.get('VERIF_OUT_DIR') or os.path.join(VERIF, 'out'), self.prop)
         os.makedirs(outdir, exist_ok=True)
         for f in os.listdir(outdir):
             if f.endswith('.json'):
@@ -101,7 +101,7 @@ class Ctx:
             rp = os.path.join(outdir, '%d.json' % i)
             with open(rp, 'w') as fh:
                 json.dump(dict(property=self.prop, **v), fh, indent=1, default=str)
-            lines.append('VIOLATION property=%s replay=%s' % (self.prop, os.path.relpath(rp, VERIF)))
+            lines.append('VIOLATION property=%s replay=%s' % (self.prop, (os.path.relpath(rp, VERIF) if rp.startswith(VERIF) else rp)))
             lines.append('  rule=%s fn=%s site=%s :: %s' % (v['rule'], v['fn'], v['site'], v['detail']))
         decided = [x for x in self.instances if x['verdict'] in ('ok', 'violation', 'known-finding')]
         undec = [x for x in self.instances if x['verdict'] == 'undecided']
@@ -129,8 +129,9 @@ class Ctx:
                             'prost / ocipkg / std behave as documented',
                             'slices over-approximate dependence; rules are necessary conditions only'],
         }
-        os.makedirs(os.path.join(VERIF, 'evidence'), exist_ok=True)
-        with open(os.path.join(VERIF, 'evidence', self.prop + '.json'), 'w') as fh:
+        evdir = os.environ.get('VERIF_EVIDENCE_DIR') or os.path.join(VERIF, 'evidence')
+        os.makedirs(evdir, exist_ok=True)
+        with open(os.path.join(evdir, self.prop + '.json'), 'w') as fh:
             json.dump(ev, fh, indent=1, default=str)
         for l in lines: print(l)
         print('%s tier=%s: %d rule instances decided (%d ok, %d violations, %d known findings), %d undecided, %d functions' % (
